@@ -29,6 +29,7 @@ typedef struct unit {
     int cancel_me;      /* 0 no, 1 cancelled by main, 2 by ext */
     int revive;         /* revived once by its reaper */
     int stack;          /* stack size class */
+    int late;           /* resumed (by the external thread) only after the stream joins have been issued */
     ABT_thread th;
     volatile int created, want_resume, resumed, cancelled, looping, token, started, accounted;
 } unit_t;
@@ -47,7 +48,7 @@ static ABT_sched g_sched[MAXES];
 static int g_shared; /* pools are shared among streams (work stealing) */
 static pthread_t g_ext;
 static int g_have_ext;
-static volatile int g_ext_done, g_live;
+static volatile int g_ext_done, g_live, g_joining;
 
 static void body(void *arg);
 static const char *STN[] = { "READY", "RUNNING", "BLOCKED", "TERMINATED" };
@@ -254,7 +255,7 @@ static void serve(int who)
         int pending = 0;
         for (int i = 1; i <= g_nu; i++) {
             unit_t *u = &U[i];
-            int mine = (u->cancel_me ? (u->cancel_me == 1 ? 0 : -1) : (i % 2 && g_have_ext ? -1 : 0)) == who;
+            int mine = (u->late ? -1 : u->cancel_me ? (u->cancel_me == 1 ? 0 : -1) : (i % 2 && g_have_ext ? -1 : 0)) == who;
             if (!mine)
                 continue;
             int has_susp = 0, has_loop = 0, has_sloop = 0;
@@ -265,9 +266,11 @@ static void serve(int who)
             }
             if (has_susp && !u->resumed) {
                 pending = 1;
-                if (u->want_resume == 1 && u->created && state_of(u->th) == 2) {
+                if (u->want_resume == 1 && u->created && (!u->late || g_joining) && state_of(u->th) == 2) {
                     u->resumed = 1;
                     EV("\"e\":\"ResumeCall\",\"by\":%d,\"u\":%d", who, i);
+                    if (rnd(2))
+                        abtv_stall_within(8, 150 + rnd(400));
                     CHK(ABT_thread_resume(u->th));
                     EV("\"e\":\"ResumeRet\",\"by\":%d,\"u\":%d", who, i);
                 }
@@ -278,6 +281,8 @@ static void serve(int who)
                 if (u->created && u->looping) {
                     u->cancelled = 1;
                     EV("\"e\":\"Cancel\",\"by\":%d,\"u\":%d", who, i);
+                    if (rnd(2))
+                        abtv_stall_within(3, 100 + rnd(200));
                     CHK(ABT_thread_cancel(u->th));
                     EV("\"e\":\"CancelRet\",\"by\":%d,\"u\":%d", who, i);
                 }
@@ -331,9 +336,18 @@ static void *ext_main(void *p)
 #define MAXM 4
 typedef struct {
     int id, home, rounds, migratable, cbmode, self_req, suspend_round;
-    ABT_thread th;
+    ABT_thread th, partner;
     volatile int cb_count, done, round, state_hint, cb_ready;
 } mover_t;
+static ABT_pool g_hold;
+static volatile int g_partner_stop;
+static void partner_body(void *a)
+{
+    (void)a;
+    /* parked in a pool that no scheduler serves; runs only when yielded to */
+    while (!g_partner_stop)
+        ABT_thread_yield();
+}
 static mover_t MV[MAXM + 1];
 static int g_nm;
 static int pool_index(ABT_pool p)
@@ -406,6 +420,11 @@ static void mover_body(void *arg)
             CHK(ABT_self_suspend());
             m->state_hint = 0;
             EV("\"e\":\"Resumed\",\"u\":%d", m->id);
+        } else if (m->partner != ABT_THREAD_NULL && rnd(3) == 0) {
+            /* the old directed yield: the partner runs next, yields at once and parks again */
+            /* (if the partner is still on its way back to its pool the call returns at once) */
+            EV("\"e\":\"YieldTo\",\"u\":%d", m->id);
+            CHK(ABT_thread_yield_to(m->partner));
         } else {
             EV("\"e\":\"Yield\",\"u\":%d", m->id);
             CHK(ABT_thread_yield());
@@ -502,9 +521,14 @@ static void scn_migrate(void)
     g_have_ext = rnd(2);
     g_ext_done = 0;
     EV("\"e\":\"Exec\",\"nu\":%d,\"nes\":%d,\"cfg\":%d,\"ext\":%d", g_nm, g_nes, g_cfg, g_have_ext);
+    g_partner_stop = 0;
+    CHK(ABT_pool_create_basic(ABT_POOL_FIFO, ABT_POOL_ACCESS_MPMC, ABT_FALSE, &g_hold));
     for (int i = 1; i <= g_nm; i++) {
         mover_t *m = &MV[i];
         m->id = i;
+        m->partner = ABT_THREAD_NULL;
+        if (rnd(2))
+            CHK(ABT_thread_create(g_hold, partner_body, NULL, ABT_THREAD_ATTR_NULL, &m->partner));
         m->home = rnd(g_nes);
         m->rounds = 2 + rnd(5);
         m->migratable = rnd(6) != 0;
@@ -543,6 +567,18 @@ static void scn_migrate(void)
         EV("\"e\":\"FreeRet\",\"by\":0,\"u\":%d,\"null\":%d,\"tok\":%d", i, MV[i].th == ABT_THREAD_NULL, i * 10);
         EV("\"e\":\"MigCount\",\"u\":%d,\"n\":%d", i, MV[i].cb_count);
     }
+    /* let the partners finish on the primary stream */
+    g_partner_stop = 1;
+    for (int i = 1; i <= g_nm; i++)
+        if (MV[i].partner != ABT_THREAD_NULL) {
+            ABT_thread t;
+            CHK(ABT_pool_pop_thread(g_hold, &t));
+            CHK(ABT_pool_push_thread(g_pool[0][0], t));
+        }
+    for (int i = 1; i <= g_nm; i++)
+        if (MV[i].partner != ABT_THREAD_NULL)
+            CHK(ABT_thread_free(&MV[i].partner));
+    CHK(ABT_pool_free(&g_hold));
     sample_blocked("quiet");
 }
 
@@ -906,6 +942,236 @@ static void scn_switch(void)
     sample_blocked("quiet");
 }
 
+/* ======================================================================= stream join vs. resume (C06)
+ * Units of a secondary stream are suspended when the primary ULT joins the
+ * stream; an external thread (or a ULT of another stream) resumes them while
+ * the stream's scheduler runs its stop test. */
+static volatile int g_xj_go;
+static unit_t *g_xj_units[4];
+static int g_xj_n;
+static void xj_body(void *arg)
+{
+    uarg_t *a = (uarg_t *)arg;
+    unit_t *u = a->u;
+    int rank = -1;
+    ABT_xstream_self_rank(&rank);
+    EV("\"e\":\"Start\",\"u\":%d,\"arg\":%d,\"es\":%d,\"n\":1", u->id, u->id * 10, rank);
+    for (int k = 0; k < u->ns; k++) {
+        EV("\"e\":\"Yield\",\"u\":%d", u->id);
+        CHK(ABT_thread_yield());
+        EV("\"e\":\"Back\",\"u\":%d", u->id);
+    }
+    CHK(ABT_self_get_thread(&u->th));
+    EV("\"e\":\"Suspend\",\"u\":%d", u->id);
+    u->want_resume = 1;
+    CHK(ABT_self_suspend());
+    EV("\"e\":\"Resumed\",\"u\":%d", u->id);
+    if (u->stack)
+        for (int k = 0; k < u->stack; k++) {
+            EV("\"e\":\"Yield\",\"u\":%d", u->id);
+            CHK(ABT_thread_yield());
+            EV("\"e\":\"Back\",\"u\":%d", u->id);
+        }
+    u->token = u->id * 10;
+    EV("\"e\":\"Finish\",\"u\":%d", u->id);
+}
+static void xj_resume_all(int who)
+{
+    while (!g_xj_go)
+        pause_any(who);
+    for (int d = rnd(40); d > 0; d--)
+        abtv_idle_hint();
+    for (int i = 0; i < g_xj_n; i++) {
+        unit_t *u = g_xj_units[i];
+        while (!(u->want_resume == 1 && state_of(u->th) == 2))
+            pause_any(who);
+        EV("\"e\":\"ResumeCall\",\"by\":%d,\"u\":%d", who, u->id);
+        if (rnd(4))
+            abtv_stall_within(7, 100 + rnd(500));
+        CHK(ABT_thread_resume(u->th));
+        EV("\"e\":\"ResumeRet\",\"by\":%d,\"u\":%d", who, u->id);
+    }
+}
+static void *xj_ext(void *p)
+{
+    (void)p;
+    xj_resume_all(-1);
+    return NULL;
+}
+static void xj_helper(void *p)
+{
+    (void)p;
+    EV("\"e\":\"Start\",\"u\":9,\"arg\":90,\"es\":0,\"n\":1");
+    xj_resume_all(9);
+    EV("\"e\":\"Finish\",\"u\":9");
+}
+static void scn_xjoin(void)
+{
+    memset(U, 0, sizeof U);
+    g_xj_go = 0;
+    g_xj_n = 1 + rnd(3);
+    int use_ext = rnd(2);
+    EV("\"e\":\"Exec\",\"nu\":%d,\"nes\":%d,\"cfg\":%d,\"ext\":%d", g_xj_n, g_nes, g_cfg, use_ext);
+    char buf[64];
+    int p = 0;
+    buf[0] = 0;
+    for (int i = 0; i < g_xj_n; i++) {
+        unit_t *u = &U[i + 1];
+        u->id = i + 1;
+        u->named = rnd(2);
+        u->ns = rnd(3);
+        u->stack = rnd(3);
+        g_xj_units[i] = u;
+        UA[u->id][0].u = u;
+        UA[u->id][0].inc = 0;
+        EV("\"e\":\"Create\",\"by\":0,\"u\":%d,\"kind\":0,\"named\":%d,\"arg\":%d,\"pool\":1", u->id, u->named, u->id * 10);
+        ABT_thread th;
+        CHK(ABT_thread_create(g_pool[1][0], xj_body, &UA[u->id][0], ABT_THREAD_ATTR_NULL, u->named ? &th : NULL));
+        if (u->named)
+            UA[u->id][1].u = (unit_t *)th; /* keep the handle for the final free */
+        EV("\"e\":\"CreateRet\",\"by\":0,\"u\":%d", u->id);
+        p += sprintf(buf + p, "%s%d", p ? "," : "", u->id);
+    }
+    pthread_t ext;
+    ABT_thread helper = ABT_THREAD_NULL;
+    if (use_ext)
+        pthread_create(&ext, NULL, xj_ext, NULL);
+    else {
+        EV("\"e\":\"Create\",\"by\":0,\"u\":9,\"kind\":0,\"named\":1,\"arg\":90,\"pool\":0");
+        CHK(ABT_thread_create(g_pool[0][0], xj_helper, NULL, ABT_THREAD_ATTR_NULL, &helper));
+        EV("\"e\":\"CreateRet\",\"by\":0,\"u\":9");
+    }
+    /* wait until every unit is suspended, then join the stream */
+    for (int i = 0; i < g_xj_n; i++)
+        while (g_xj_units[i]->want_resume != 1)
+            pause_any(0);
+    EV("\"e\":\"XJoinCall\",\"s\":1");
+    g_xj_go = 1;
+    CHK(ABT_xstream_join(g_xs[1]));
+    ABT_xstream_state xst;
+    CHK(ABT_xstream_get_state(g_xs[1], &xst));
+    EV("\"e\":\"XJoinRet\",\"s\":1,\"us\":[%s],\"term\":%d", buf, xst == ABT_XSTREAM_STATE_TERMINATED);
+    if (use_ext)
+        pthread_join(ext, NULL);
+    else {
+        EV("\"e\":\"FreeCall\",\"by\":0,\"u\":9");
+        CHK(ABT_thread_free(&helper));
+        EV("\"e\":\"FreeRet\",\"by\":0,\"u\":9,\"null\":1,\"tok\":90");
+    }
+    for (int i = 0; i < g_xj_n; i++) {
+        unit_t *u = g_xj_units[i];
+        if (u->named) {
+            ABT_thread th = (ABT_thread)UA[u->id][1].u;
+            EV("\"e\":\"FreeCall\",\"by\":0,\"u\":%d", u->id);
+            CHK(ABT_thread_free(&th));
+            EV("\"e\":\"FreeRet\",\"by\":0,\"u\":%d,\"null\":%d,\"tok\":%d", u->id, th == ABT_THREAD_NULL, u->token);
+        }
+    }
+}
+
+/* ======================================================================= cancel before the first run (C12, C03)
+ * A named ULT is created (or revived) into a pool that no scheduler serves,
+ * so it has never been scheduled; a joiner blocks on it; it is cancelled and
+ * only then handed to a real pool.  The joiner must be released. */
+static ABT_thread g_cn_t;
+static volatile int g_cn_blocked;
+static void cn_target(void *a)
+{
+    uarg_t *ua = (uarg_t *)a;
+    EV("\"e\":\"Start\",\"u\":1,\"arg\":%d,\"es\":0,\"n\":1", 10 + ua->inc);
+    U[1].token = 10 + ua->inc;
+    EV("\"e\":\"Finish\",\"u\":1");
+}
+static void cn_join(int who)
+{
+    g_cn_blocked = 1;
+    EV("\"e\":\"JoinCall\",\"by\":%d,\"u\":1", who);
+    CHK(ABT_thread_join(g_cn_t));
+    EV("\"e\":\"JoinRet\",\"by\":%d,\"u\":1,\"st\":%d,\"tok\":%d", who, state_of(g_cn_t), U[1].token);
+}
+static void cn_joiner_ult(void *a)
+{
+    (void)a;
+    EV("\"e\":\"Start\",\"u\":2,\"arg\":20,\"es\":0,\"n\":1");
+    cn_join(2);
+    EV("\"e\":\"Finish\",\"u\":2");
+}
+static void *cn_joiner_ext(void *a)
+{
+    (void)a;
+    cn_join(-1);
+    return NULL;
+}
+static void scn_cancelnew(void)
+{
+    memset(U, 0, sizeof U);
+    g_cn_blocked = 0;
+    int revived = rnd(2), jkind = rnd(3); /* joiner: 0 ULT, 1 external thread, 2 the primary ULT after the hand-over */
+    EV("\"e\":\"Exec\",\"nu\":2,\"nes\":%d,\"cfg\":%d,\"ext\":%d", g_nes, g_cfg, jkind == 1);
+    ABT_pool hold;
+    CHK(ABT_pool_create_basic(ABT_POOL_FIFO, ABT_POOL_ACCESS_MPMC, ABT_FALSE, &hold));
+    U[1].id = 1;
+    UA[1][0].u = &U[1];
+    UA[1][0].inc = 0;
+    UA[1][1].u = &U[1];
+    UA[1][1].inc = 1;
+    int tp = rnd(g_nes);
+    if (!revived) {
+        EV("\"e\":\"Create\",\"by\":0,\"u\":1,\"kind\":0,\"named\":1,\"arg\":10,\"pool\":%d", tp);
+        CHK(ABT_thread_create(hold, cn_target, &UA[1][0], ABT_THREAD_ATTR_NULL, &g_cn_t));
+        EV("\"e\":\"CreateRet\",\"by\":0,\"u\":1");
+    } else {
+        /* first incarnation runs normally, the second one is never scheduled */
+        EV("\"e\":\"Create\",\"by\":0,\"u\":1,\"kind\":0,\"named\":1,\"arg\":10,\"pool\":%d", tp);
+        CHK(ABT_thread_create(g_pool[tp][0], cn_target, &UA[1][0], ABT_THREAD_ATTR_NULL, &g_cn_t));
+        EV("\"e\":\"CreateRet\",\"by\":0,\"u\":1");
+        EV("\"e\":\"JoinCall\",\"by\":0,\"u\":1");
+        CHK(ABT_thread_join(g_cn_t));
+        EV("\"e\":\"JoinRet\",\"by\":0,\"u\":1,\"st\":%d,\"tok\":%d", state_of(g_cn_t), U[1].token);
+        EV("\"e\":\"Revive\",\"by\":0,\"u\":1,\"arg\":11,\"pool\":%d", tp);
+        CHK(ABT_thread_revive(hold, cn_target, &UA[1][1], &g_cn_t));
+        EV("\"e\":\"ReviveRet\",\"by\":0,\"u\":1");
+        U[1].token = 0;
+    }
+    ABT_thread j = ABT_THREAD_NULL;
+    pthread_t pj;
+    if (jkind == 0) {
+        EV("\"e\":\"Create\",\"by\":0,\"u\":2,\"kind\":0,\"named\":1,\"arg\":20,\"pool\":0");
+        CHK(ABT_thread_create(g_pool[rnd(g_nes)][0], cn_joiner_ult, NULL, ABT_THREAD_ATTR_NULL, &j));
+        EV("\"e\":\"CreateRet\",\"by\":0,\"u\":2");
+        while (!(g_cn_blocked && state_of(j) == 2))
+            pause_any(0);
+    } else if (jkind == 1) {
+        pthread_create(&pj, NULL, cn_joiner_ext, NULL);
+        while (!g_cn_blocked)
+            pause_any(0);
+        for (int d = 20 + rnd(60); d > 0; d--)
+            abtv_idle_hint();
+    }
+    EV("\"e\":\"Cancel\",\"by\":0,\"u\":1");
+    CHK(ABT_thread_cancel(g_cn_t));
+    EV("\"e\":\"CancelRet\",\"by\":0,\"u\":1");
+    /* hand the unit to a pool that is scheduled */
+    ABT_thread t;
+    CHK(ABT_pool_pop_thread(hold, &t));
+    CHK(ABT_pool_push_thread(g_pool[tp][0], t));
+    if (jkind == 0) {
+        EV("\"e\":\"FreeCall\",\"by\":0,\"u\":2");
+        CHK(ABT_thread_free(&j));
+        EV("\"e\":\"FreeRet\",\"by\":0,\"u\":2,\"null\":1,\"tok\":20");
+    } else if (jkind == 1) {
+        while (state_of(g_cn_t) != 3)
+            pause_any(0);
+        pthread_join(pj, NULL);
+    } else {
+        cn_join(0);
+    }
+    EV("\"e\":\"FreeCall\",\"by\":0,\"u\":1");
+    CHK(ABT_thread_free(&g_cn_t));
+    EV("\"e\":\"FreeRet\",\"by\":0,\"u\":1,\"null\":%d,\"tok\":%d", g_cn_t == ABT_THREAD_NULL, U[1].token);
+    CHK(ABT_pool_free(&hold));
+}
+
 /* ---------------------------------------------------------------- configuration */
 static void setup_streams(void)
 {
@@ -971,6 +1237,7 @@ static void generate(void)
     g_have_ext = rnd(3) == 0;
     g_ext_done = 0;
     g_live = 0;
+    g_joining = 0;
     int special_budget = 2;
     for (int i = 1; i <= g_nu; i++) {
         unit_t *u = &U[i];
@@ -1019,6 +1286,19 @@ static void generate(void)
         u->revive = u->named && u->reaper == 0 && rnd(3) == 0;
         u->want_resume = 0;
     }
+    /* units created and reaped by the external thread may be resumed only after
+     * the primary ULT has asked their stream to join (C06: blocked at the time
+     * of the call and resumed later) */
+    for (int i = 1; i <= g_nu; i++) {
+        unit_t *u = &U[i];
+        int susp = 0, creates = 0;
+        for (int k = 0; k < u->ns; k++) {
+            susp |= u->s[k].op == OP_SUSPEND;
+            creates |= u->s[k].op == OP_CREATE;
+        }
+        if (susp && !creates && u->creator == -1 && u->named && u->reaper == -1 && g_cfg != 4 && rnd(3))
+            u->late = 1;
+    }
     /* terminal behaviours, decided after the forest is known (a unit that
      * never returns cannot create or reap children after that point) */
     for (int i = 1; i <= g_nu; i++) {
@@ -1062,14 +1342,21 @@ static void scenario(const char *name, uint64_t seed)
     setenv("ABT_THREAD_STACKSIZE", "65536", 1);
     CHK(ABT_init(0, NULL));
     setup_streams();
-    if (!strcmp(name, "migrate") || !strcmp(name, "migrace") || !strcmp(name, "switch")) {
+    if (!strcmp(name, "migrate") || !strcmp(name, "migrace") || !strcmp(name, "switch") || !strcmp(name, "xjoin") ||
+        !strcmp(name, "cancelnew")) {
         if (!strcmp(name, "migrace"))
             scn_migrace();
+        else if (!strcmp(name, "xjoin"))
+            scn_xjoin();
+        else if (!strcmp(name, "cancelnew"))
+            scn_cancelnew();
         else if (!strcmp(name, "switch"))
             scn_switch();
         else
             scn_migrate();
         for (int e = 1; e < g_nes; e++) {
+            if (e == 1 && !strcmp(name, "xjoin"))
+                continue;
             EV("\"e\":\"XJoinCall\",\"s\":%d", e);
             CHK(ABT_xstream_join(g_xs[e]));
             EV("\"e\":\"XJoinRet\",\"s\":%d,\"us\":[],\"term\":1", e);
@@ -1104,6 +1391,7 @@ static void scenario(const char *name, uint64_t seed)
             break;
         pause_any(0);
     }
+    g_joining = 1;
     for (int e = 1; e < g_nes; e++) {
         /* units whose pool only stream e schedules */
         char buf[128];
